@@ -604,8 +604,43 @@ class Program:
                 return immutable(t[1])
             return False
 
+        writer = []
+        for blk in f.blocks:
+            w = False
+            for ins in blk:
+                if ins.op == "store" or (ins.op == "call" and not (ins.callee or "").startswith("llvm.")):
+                    w = True
+            writer.append(w)
+
+        def lit(a, p):
+            """(term, const, 'eq'|'ne') for equality tests against a constant/null"""
+            if a[0] == "cmp" and a[1] in ("eq", "ne") and a[3][0] in ("const", "null"):
+                e = (a[1] == "eq") == p
+                return (a[2], a[3], "eq" if e else "ne")
+            if a[0] == "truth":
+                return (a[1], ("const", 0), "ne" if p else "eq")
+            return None
+
         def contradicts(path, atom, pol):
-            if atom is None or not immutable(atom):
+            if atom is None:
+                return False
+            if not immutable(atom):
+                # memory-dependent test: contradiction only with a test of the same term that no store/call separates
+                l2 = lit(atom, pol)
+                if l2 is None or len(path) < 2:
+                    return False
+                k = len(path) - 1
+                # the new atom is evaluated at the end of path[k]; walk back while no writer block intervenes
+                while k >= 1:
+                    blk_eval = path[k][0]
+                    if writer[blk_eval]:
+                        break
+                    (_, a, p) = path[k]
+                    if a is not None:
+                        l1 = lit(a, p)
+                        if l1 is not None and l1[0] == l2[0] and l1[1] == l2[1] and l1[2] != l2[2]:
+                            return True
+                    k -= 1
                 return False
             for (_, a, p) in path:
                 if a is None:
